@@ -28,24 +28,35 @@ Universe == SetToSeq(ToSet(NTs) \X RhsSet)      \* fixed (deterministic) enumera
 NU       == Len(Universe)
 Start    == NTs[1]
 
-VARIABLES chosen        \* sequence of universe indices
-vars == <<chosen>>
+VARIABLES chosen,       \* sequence of universe indices
+          emitted       \* the current set has been emitted (or is not a grammar to emit)
+vars == <<chosen, emitted>>
 
 GrammarOf(ch) == [start |-> Start, prods |-> [k \in 1..Len(ch) |-> <<Universe[ch[k]][1], Universe[ch[k]][2]>>]]
 HasStart(ch)  == \E k \in 1..Len(ch) : Universe[ch[k]][1] = Start
+Emittable(ch) == HasStart(ch) /\ Len(ch) >= MinProds
 
-Emit(ch) == IF HasStart(ch) /\ Len(ch) >= MinProds THEN PrintT(ToJson(GrammarOf(ch))) ELSE TRUE
+Init == chosen = <<>> /\ emitted = TRUE
 
-Init == chosen = <<>>
+\* (The grammar is printed from the state that was actually reached, not inside Add: TLC evaluates
+\* Add for every candidate successor.)
+Add == /\ emitted
+       /\ Len(chosen) < MaxProds
+       /\ IF Ordered
+          THEN \E j \in 1..NU :
+                 /\ (IF chosen = <<>> THEN TRUE ELSE j > chosen[Len(chosen)])
+                 /\ chosen' = Append(chosen, j)
+          ELSE \* sampling mode: one uniformly drawn unused production (TLC's RandomElement), instead of
+               \* building all NU successors just to keep one
+               chosen' = Append(chosen, RandomElement((1..NU) \ {chosen[k] : k \in 1..Len(chosen)}))
+       /\ emitted' = ~Emittable(chosen')
 
-Add == /\ Len(chosen) < MaxProds
-       /\ \E j \in 1..NU :
-            /\ IF Ordered THEN (IF chosen = <<>> THEN TRUE ELSE j > chosen[Len(chosen)])
-                          ELSE \A k \in 1..Len(chosen) : chosen[k] # j
-            /\ chosen' = Append(chosen, j)
-            /\ Emit(chosen')
+Emit == /\ ~emitted
+        /\ PrintT(ToJson(GrammarOf(chosen)))
+        /\ emitted' = TRUE
+        /\ UNCHANGED chosen
 
-Next == Add
+Next == Add \/ Emit
 
 \* Design-level sanity of the generator itself (checked by the MC configuration):
 \* no production is repeated, and in ordered mode each set has exactly one representation.
